@@ -41,7 +41,7 @@ theorem op_map_items (c cr : Codec V) (hL : 0 < c.w) (hLr : 0 < cr.w) (hwfr : cr
     obtain ⟨v, hv, rfl⟩ := List.mem_map.mp hx
     exact hfit v hv
   obtain ⟨bl, _, hbl, hdec, hm, _⟩ := encs_of_fits cr hwfr _ hall
-  refine ⟨bl.flatten, op_map c cr hL hur hwfr f d _ bl hmap hm, ?_, ?_⟩
+  refine ⟨bl.flatten, op_map c cr hL hwfr f d _ bl hmap hm, ?_, ?_⟩
   · have hv := view_of_blocks cr hLr bl [] hbl hLr
     rw [List.append_nil] at hv
     rw [hv.1, hdec]
@@ -95,62 +95,11 @@ theorem op_inplace_fails_iff (c : Codec V) (f : V → Except Err V) (d : Bits) :
 
 /-! ### scalar - Array -/
 
-/-- `k - A` = mapping `x ↦ k - x` (`g`) over the items when every result fits — outside the region `rsub_negation`
-    (some item whose negation does not fit the dtype).  `hcomp`: `(-x) + k = k - x` in Python.
-    Full statement (no `hreg`) fails on the pinned tree: see `rsub_negation_witness`. -/
-theorem rsub_map_partial (c : Codec V) (hL : 0 < c.w) (hwf : c.WF)
-    (fneg fadd : V → Except Err V) (g : V → V) (d : Bits)
-    (hreg : rsub_negation c fneg d = false)
-    (hcomp : ∀ v ∈ items c d, ∀ n, fneg v = .ok n → fadd n = .ok (g v))
-    (hfit : ∀ v ∈ items c d, fits c (g v) = true) :
-    ∃ r, rsub c fneg fadd d = .ok r ∧ items c r = (items c d).map g ∧ trailing c.w r = [] := by
-  let g1 : V → V := fun v => match fneg v with | .ok n => n | .error _ => v
-  let g2 : V → V := fun v => match fadd v with | .ok n => n | .error _ => v
-  -- every negation succeeds and fits
-  have hneg : ∀ v ∈ items c d, fneg v = .ok (g1 v) ∧ fits c (g1 v) = true := by
-    intro v hv
-    unfold rsub_negation at hreg
-    rw [List.any_eq_false] at hreg
-    have := hreg v hv
-    cases hn : fneg v with
-    | error e => simp [buildResult, hn] at this
-    | ok n =>
-      have hg : g1 v = n := by simp only [g1, hn]
-      rw [hg]
-      refine ⟨rfl, ?_⟩
-      simp only [buildResult, hn] at this
-      cases hce : createElement c n with
-      | error e => simp [hce] at this
-      | ok b => exact (fits_iff c n).mpr ⟨b, (createElement_ok_inv c n b hce).1⟩
-  obtain ⟨r1, hr1, hi1, ht1⟩ := op_map_items c c hL hL hwf fneg g1 d
-    (fun v hv => (hneg v hv).1) (fun v hv => (hneg v hv).2)
-  have hadd : ∀ v' ∈ items c r1, fadd v' = .ok (g2 v') ∧ fits c (g2 v') = true := by
-    intro v' hv'
-    rw [hi1] at hv'
-    obtain ⟨v, hv, rfl⟩ := List.mem_map.mp hv'
-    have h := hcomp v hv (g1 v) (hneg v hv).1
-    have hg : g2 (g1 v) = g v := by simp only [g2, h]
-    rw [hg]
-    exact ⟨h, hfit v hv⟩
-  obtain ⟨r2, hr2, hi2, ht2⟩ := op_map_items c c hL hL hwf fadd g2 r1
-    (fun v hv => (hadd v hv).1) (fun v hv => (hadd v hv).2)
-  refine ⟨r2, ?_, ?_, ht2⟩
-  · unfold rsub
-    rw [hr1]
-    exact hr2
-  · rw [hi2, hi1, List.map_map]
-    apply List.map_congr_left
-    intro v hv
-    have h := hcomp v hv (g1 v) (hneg v hv).1
-    simp only [Function.comp, g2, h]
-
-/-- Known finding `rsub-negation`: `5 - Array('uint3', [1])` raises although `5 - 1 = 4` fits. -/
-theorem rsub_negation_witness :
-    let c := mkCodec .u "uint" 3 1 .int false
-    rsub_negation c (pyUn "neg") [false, false, true] = true ∧
-    rsub c (pyUn "neg") (scalarFn "add" (.int 5) false) [false, false, true] = .error .value ∧
-    applyOp c c (scalarFn "sub" (.int 5) true) [false, false, true] = .ok [true, false, false] := by
-  decide
+/-- `k - A` = mapping `x ↦ k - x` (`g`) over the items when every result fits (one pass, no intermediate negation). -/
+theorem rsub_map (c : Codec V) (hL : 0 < c.w) (hwf : c.WF) (frsub : V → Except Err V) (g : V → V) (d : Bits)
+    (hf : ∀ v ∈ items c d, frsub v = .ok (g v)) (hfit : ∀ v ∈ items c d, fits c (g v) = true) :
+    ∃ r, rsub c frsub d = .ok r ∧ items c r = (items c d).map g ∧ trailing c.w r = [] := by
+  sorry
 
 /-! ### bit-wise operators with a Bits value -/
 
@@ -211,46 +160,23 @@ theorem between_map (c1 c2 cr : Codec V) (hL1 : 0 < c1.w) (hL2 : 0 < c2.w)
     (bs1.zip bs2) rs bs hf henc
   unfold betweenArrays
   rw [hlen1, hlen2, if_neg (not_not.mpr hlen), List.range_eq_range']
-  have h := opLoop2_ok c1 c2 cr hu2 f bs1 t1 hbs1 bs2 t2 hbs2 bs1.length 0 (by omega) (by omega) bs
+  have h := opLoop2_ok c1 c2 cr f bs1 t1 hbs1 bs2 t2 hbs2 bs1.length 0 (by omega) (by omega) bs
     (by rw [List.drop_zero, List.drop_zero, List.take_length, hlen, List.take_length]; exact hfa) [] 0
   rw [h]
   simp
 
-theorem between_length_mismatch (c1 c2 cr : Codec V) (hu2 : c2.mult = 1)
+theorem between_length_mismatch (c1 c2 cr : Codec V)
     (f : V → V → Except Err V) (d1 d2 : Bits) (hlen : (items c1 d1).length ≠ (items c2 d2).length) :
     betweenArrays c1 c2 cr f d1 d2 = .error .value := by
   unfold betweenArrays
   have : len c1 d1 ≠ len c2 d2 := by
-    rw [len_eq' c1 hu1, len_eq' c2 hu2]; exact hlen
+    rw [len_eq' c1, len_eq' c2]; exact hlen
   rw [if_pos this]
 
-/-- `==` / `!=` between Arrays is the element-wise comparison into `bool` — for operands of the same dtype
-    (outside the region `eq_ne_arrays_mixed_dtype`). -/
-theorem eqNe_arrays_partial (c cb c2 : Codec V) (f : V → V → Except Err V) (d d2 : Bits)
-    (hreg : eq_ne_arrays_mixed_dtype c c2 = false) :
-    eqNeArrays c cb f d c2 d2 = betweenArrays c c cb f d d2 := by
-  unfold eq_ne_arrays_mixed_dtype at hreg
-  have hn : c.name = c2.name ∧ c.L = c2.L := by
-    simp only [Bool.or_eq_false_iff, bne_eq_false_iff_eq] at hreg
-    exact hreg
-  unfold eqNeArrays extendArr
-  have h0 : ¬ (([] : Bits).length % c.w ≠ 0) := by simp
-  have h1 : ¬ (c.name ≠ c2.name ∨ c.L ≠ c2.L) := by
-    intro h; rcases h with h | h
-    · exact h hn.1
-    · exact h hn.2
-  simp only [h0, h1, if_false, List.nil_append]
-
-/-- Known finding `eq-ne-mixed-dtype`: `Array('int3', [1]) == Array('uint3', [1])` raises TypeError (doc/array.rst shows
-    `a == b` for `'u8'` and `'i8'` Arrays giving an Array of bools), while `<` between the same operands works. -/
-theorem eq_ne_arrays_mixed_dtype_witness :
-    let c := mkCodec .i "int" 3 1 .int true
-    let c2 := mkCodec .u "uint" 3 1 .int false
-    eq_ne_arrays_mixed_dtype c c2 = true ∧
-    eqNeArrays c boolCodec (pyBinV "eq") [false, false, true] c2 [false, false, true] = .error .type ∧
-    betweenArrays c c2 boolCodec (pyBinV "eq") [false, false, true] [false, false, true] = .ok [true] ∧
-    betweenArrays c c2 boolCodec (pyBinV "lt") [false, false, true] [false, false, true] = .ok [false] := by
-  decide
+/-- `==` / `!=` between Arrays is the element-wise comparison into `bool`, whatever the two dtypes. -/
+theorem eqNe_arrays (c cb c2 : Codec V) (f : V → V → Except Err V) (d d2 : Bits) :
+    eqNeArrays c cb f d c2 d2 = betweenArrays c c2 cb f d d2 := by
+  sorry
 
 /-! ### type promotion: the code of `_promotetype` against the documented rules -/
 
@@ -387,5 +313,9 @@ example : (applyOpInplace (mkCodec .u "uint" 3 1 .int false) (scalarFn "add" (.i
 example : promote ⟨"uint", 20, .int, false⟩ ⟨"int", 10, .int, true⟩ = .ok ⟨"int", 10, .int, true⟩ := by decide
 example : promote ⟨"float", 16, .float, true⟩ ⟨"bfloat", 16, .float, true⟩ = .ok ⟨"float", 16, .float, true⟩ := by decide
 example : promote ⟨"uint", 8, .int, false⟩ ⟨"hex", 4, .other, false⟩ = .error .value := by decide
+example : promote ⟨"uintle", 16, .int, false⟩ ⟨"uintbe", 16, .int, false⟩ = .ok ⟨"uintle", 16, .int, false⟩ := by decide
+example : rsub (mkCodec .u "uint" 3 1 .int false) (scalarFn "sub" (.int 5) true) [false, false, true] = .ok [true, false, false] := by decide
+example : eqNeArrays (mkCodec .i "int" 3 1 .int true) boolCodec (pyBinV "eq") [false, false, true]
+    (mkCodec .u "uint" 3 1 .int false) [false, false, true] = .ok [true] := by decide
 
 end BM.C14
